@@ -14,6 +14,7 @@ import (
 	"fmt"
 	"io"
 	"net"
+	"syscall"
 	"time"
 
 	"github.com/golang/snappy"
@@ -28,6 +29,10 @@ type feat struct {
 	HB      int // heartbeat_interval ms: -1 or >= 1000
 	MsgTO   int  // msg_timeout ms (0 = daemon default)
 	NoID    bool // skip IDENTIFY altogether (daemons whose max-body-size is below an IDENTIFY body)
+	// a consumer behind a small TCP window (set on the harness's own socket before connect):
+	// SO_RCVBUF and TCP_MAXSEG; 0 = system defaults (on loopback several MB fit in flight)
+	RcvBuf int
+	MSS    int
 }
 
 func (f feat) comp() string {
@@ -102,6 +107,8 @@ type client struct {
 	r    io.Reader
 	w    io.Writer
 	fl   []flusher
+	// "OK" responses seen by readMessageHeld (conc.go)
+	okSeen int
 }
 
 func (c *client) flush() error {
@@ -192,7 +199,22 @@ type identifyResp struct {
 }
 
 func dial(addr string, f feat) (*client, error) {
-	conn, err := net.DialTimeout("tcp", addr, 10*time.Second)
+	dialer := net.Dialer{Timeout: 10 * time.Second}
+	if f.RcvBuf > 0 || f.MSS > 0 {
+		dialer.Control = func(network, address string, rc syscall.RawConn) error {
+			var serr error
+			rc.Control(func(fd uintptr) {
+				if f.RcvBuf > 0 {
+					serr = syscall.SetsockoptInt(int(fd), syscall.SOL_SOCKET, syscall.SO_RCVBUF, f.RcvBuf)
+				}
+				if f.MSS > 0 && serr == nil {
+					serr = syscall.SetsockoptInt(int(fd), syscall.IPPROTO_TCP, syscall.TCP_MAXSEG, f.MSS)
+				}
+			})
+			return serr
+		}
+	}
+	conn, err := dialer.Dial("tcp", addr)
 	if err != nil {
 		return nil, err
 	}
